@@ -47,7 +47,8 @@ func (i *Interp) vecEval(t *Term, vi *varInfo) *vec {
 	r := new(vec)
 	switch t.op {
 	case OpConst:
-		for k := 0; k < n; k++ {
+		// (every slot: the vector of a constant is shared by variables with domains of different sizes)
+		for k := range r {
 			r[k] = t.val
 		}
 	case OpVar:
